@@ -770,8 +770,16 @@ func genEx(t *rapid.T, want string, depth int) *Ex {
 		if op == "^" {
 			// keep powers small: exponent is a small literal
 			r = &Ex{Op: "lit", T: "int", Lit: strconv.Itoa(drawInt(t, 0, 3, "exp"))}
-			if drawInt(t, 0, 3, "chain") == 0 {
+			switch drawInt(t, 0, 7, "chain") {
+			case 0, 1:
 				r = mk("^", &Ex{Op: "lit", T: "int", Lit: strconv.Itoa(drawInt(t, 0, 3, "e1"))}, &Ex{Op: "lit", T: "int", Lit: strconv.Itoa(drawInt(t, 0, 2, "e2"))})
+			case 2:
+				// a negative or fractional exponent: in parentheses, in a variable, as a float
+				r = &Ex{Op: "neg", L: &Ex{Op: "lit", T: "int", Lit: strconv.Itoa(drawInt(t, 1, 3, "nexp"))}, T: "int"}
+			case 3:
+				r = &Ex{Op: "var", T: "int", Name: "i8"} // -5
+			case 4:
+				r = &Ex{Op: "lit", T: "float", Lit: pick(t, "fexp", []string{"0.5", "1.5", "2.0"})}
 			}
 		}
 		e = mk(op, l, r)
